@@ -4,7 +4,7 @@ from __future__ import annotations
 import ast
 
 from sa.cfg import cfg_of
-from sa.emit import Elem, Opt, Rep, walk_elems
+from sa.emit import Alt, Elem, Opt, Rep, walk_elems
 from sa.flow import show, sig, subterms
 from sa.model import AnalysisError, norm, parent, walk_no_nested
 
@@ -456,6 +456,57 @@ def run(report, p):
         plain = isinstance(it, ast.Call) and isinstance(it.func, ast.Attribute) and it.func.attr == "get_pattern_list" and not it.args
         body_ok = len(r.items) == 1 and isinstance(r.items[0], Elem) and r.items[0].tag == "pattern" and r.items[0].text is not None and norm(r.items[0].text[0]) == norm(r.loop.target)
         r6.check(plain and body_ok, r.func, r.loop, "the <ignore> writer does not emit each pattern of get_pattern_list() in order")
+    # ------------------------------------------------------------------ R12.11
+    r11 = report.rule(
+        "R12.11",
+        "every manifest carries its <ignore> element: in the writer's document model the element is emitted on every path (the schema allows to leave it out - a manifest "
+        "without it is read back with the default patterns only, so the patterns in force are lost for whoever reads that manifest: the next generation, verify -pl of a packing list)",
+        1,
+    )
+
+    def _must_emit(item, tag):
+        if isinstance(item, Elem):
+            return item.tag == tag or any(_must_emit(c, tag) for c in item.children)
+        if isinstance(item, Alt):
+            return all(any(_must_emit(c, tag) for c in br) for br in item.branches)
+        if isinstance(item, (list, tuple)):
+            return any(_must_emit(c, tag) for c in item)
+        return False  # Opt / Rep: may be absent
+
+    ign = [el for el in walk_elems(mdoc) if el.tag == "ignore"]
+    for el in ign:
+        r11.instance(el.func, el.node, "<ignore>")
+    if ign:
+        # the innermost optional wrapper that makes it avoidable, for the report
+        def _why(item, trail):
+            if isinstance(item, Elem):
+                if item.tag == "ignore":
+                    return trail
+                for c in item.children:
+                    w = _why(c, trail)
+                    if w is not None:
+                        return w
+            elif isinstance(item, Opt):
+                for c in item.items:
+                    w = _why(c, trail + [item.guard.text()])
+                    if w is not None:
+                        return w
+            elif isinstance(item, Rep):
+                for c in item.items:
+                    w = _why(c, trail + ["one iteration of " + norm(item.loop.iter)[:40]])
+                    if w is not None:
+                        return w
+            elif isinstance(item, Alt):
+                for i, br in enumerate(item.branches):
+                    if not any(_must_emit(c, "ignore") for c in br):
+                        return trail + [f"alternative {i + 1} of {len(item.branches)} of the builder has no <ignore>"]
+            return None
+
+        ok11 = _must_emit(mdoc, "ignore")
+        w = None if ok11 else _why(mdoc, [])
+        r11.check(ok11, ign[0].func, ign[0].node, f"the <ignore> element is only written under a condition ({'; '.join(w or ['?'])[:160]}): a manifest written when it does not hold has no ignore patterns, the reader substitutes the defaults and files the history deliberately ignores are reported as new (verify -pl on a packing list, the next create)", construct="<ignore> emitted conditionally")
+    else:
+        r11.check(False, None, None, "the manifest writer emits no <ignore> element at all", construct="no <ignore> element")
     gpl = spec.methods.get("get_pattern_list")
     rets = [n for n in walk_no_nested(gpl.node) if isinstance(n, ast.Return)] if gpl else []
     r6.check(len(rets) == 1 and norm(rets[0].value) in ("self._ignore_list.copy()", "self._ignore_list", "list(self._ignore_list)"), gpl, gpl.node if gpl else None, "get_pattern_list does not return the list as it is", construct="get_pattern_list")
